@@ -17,13 +17,18 @@ def explore(core, rng, tier, seed, search=False):
     n = 600 if tier == "quick" else 20000
     lim = 1500 if tier == "quick" else 100000
     s = rng.randrange(1 << 30)
-    cmds = [["sched", "km", "exhaustive", 1, lim, 2, "api"], ["sched", "krw", "exhaustive", 1, lim, 2, "api"],
-            ["sched", "km", "random", s, n, 2, "api"], ["sched", "krw", "random", s + 1, n, 2, "api"]]
+    # step-level traces: judged by "C09" (the property: keyed-lock object, occupancy) and by "C09conc" (the tie: label for label an execution
+    # of keyedmutex.go composed with the step-level model of the embedded sync2.Map)
+    cmds = [["sched", "km", "exhaustive", 1, lim, 2], ["sched", "krw", "exhaustive", 1, lim, 2],
+            ["sched", "km", "random", s, n, 2], ["sched", "krw", "random", s + 1, n, 2]]
+    r1 = traceprop.explore(core, ID, cmds, min_events=8, also_judges=("C09conc",))
     # native, truly parallel runs (no controlled scheduler): first uses of never-seen keys and ClearKey racing lock-free lookups of other keys;
     # also under the race detector (a crash such as "concurrent map read and map write" is a failed acquisition of an unrelated key)
-    cmds.append(["kmstress", rng.randrange(1 << 30), 40 if tier == "quick" else 2000])
-    return traceprop.explore(core, ID, cmds, min_events=8, race_cmds=[["kmstress", rng.randrange(1 << 30), 40 if tier == "quick" else 1000]])
+    r2 = traceprop.explore(core, ID + "native", [["kmstress", rng.randrange(1 << 30), 40 if tier == "quick" else 2000]], min_events=8, judge=ID, with_corpus=False,
+                           race_cmds=[["kmstress", rng.randrange(1 << 30), 40 if tier == "quick" else 1000]])
+    from .C05 import join
+    return join(r1, r2)
 
 
 def replay(core, obj, path):
-    return traceprop.replay(core, obj, path, ID)
+    return traceprop.replay(core, obj, path, ID, also_judges=("C09conc",))
